@@ -276,6 +276,7 @@ fn main() {
             reg_enum!(jobs, "mul_limb_alphabet", enum_alphabet_pairs, body; [65, 127, 128, 129, 190, 192, 250, 256]);
             w_all_wide!(reg_gen!(jobs, "mul", 10000, strat, body;));
             reg_gen!(jobs, "mul", 300, strat, body; [4160, 8256]);
+            w_dense!(reg_gen!(jobs, "mul", 800, strat, body;));
             reg_wide!(jobs;
                 (0, 0), (0, 64), (64, 0), (1, 1), (1, 63), (63, 1), (63, 64), (64, 64), (64, 65), (65, 64),
                 (1, 127), (127, 1), (64, 128), (128, 64), (127, 129), (128, 128), (129, 127), (192, 64),
